@@ -217,6 +217,10 @@ def dict_get(d, k, default=None):
     return d.get(k, default)
 
 
+def dict_values_str(d):
+    return all(isinstance(v, str) for v in d.values())
+
+
 def dict_keys(d):
     return list(d)
 
